@@ -8,6 +8,7 @@ package main
 
 import (
 	"fmt"
+	"go/constant"
 	"go/token"
 	"go/types"
 	"sort"
@@ -243,32 +244,102 @@ func helperOfAllowed(r *Run, name string, allowed map[string]bool, prefixes []st
 	return n > 0 && !isExported(fn)
 }
 
+// ruleGoSites: every go statement sits in a listed function (goSites) and within that
+// function's budget. A go statement in an unexported helper that is only ever called — directly
+// or through other such helpers — from one listed function counts as a statement of that
+// function: moving a `case` body of the handler into a method of the same package starts the
+// same goroutines under the same conditions.
 func ruleGoSites(r *Run) {
-	count := map[string]int{}
-	for _, fn := range r.P.Funcs {
-		top := fn
-		for top.Parent() != nil {
-			top = top.Parent()
+	type site struct {
+		g     *ssa.Go
+		fn    *ssa.Function
+		owner string
+		via   string
+	}
+	// ownerOf: the listed function on whose behalf top runs, "" when there is none or several
+	var ownersOf func(top *ssa.Function, depth int, seen map[*ssa.Function]bool) map[string]bool
+	ownersOf = func(top *ssa.Function, depth int, seen map[*ssa.Function]bool) map[string]bool {
+		out := map[string]bool{}
+		if _, listed := goSites[fnName(top)]; listed {
+			out[fnName(top)] = true
+			return out
 		}
-		for _, ins := range allInstrs(fn) {
-			if g, ok := ins.(*ssa.Go); ok {
-				name := fnName(top)
-				count[name]++
-				e, listed := goSites[name]
-				if listed && count[name] <= e.N {
-					r.Tabled("R4a.go", fnName(fn), fmt.Sprintf("go statement %d of %s", count[name], name), r.P.pos(g.Pos()), "goSites", e.Reason)
-				} else {
-					r.Bad("R4a.go", fnName(fn), fmt.Sprintf("go statement %d of %s", count[name], name), r.P.pos(g.Pos()),
-						"new goroutine spawn site: concurrency outside AsyncMapReduce and the subscription goroutines is not covered by the ordering/independence arguments (R1, R8, R9b)")
+		if depth > 3 || seen[top] || isExported(top) {
+			out["?"] = true
+			return out
+		}
+		seen[top] = true
+		n := 0
+		for _, f := range withClosures(top) {
+			for _, e := range r.P.CG.In[f] {
+				if topFn(e.Caller) == top || e.Kind == "param" {
+					continue
+				}
+				n++
+				if e.Kind != "static" || topFn(e.Caller).Pkg != top.Pkg {
+					out["?"] = true
+					continue
+				}
+				for o := range ownersOf(topFn(e.Caller), depth+1, seen) {
+					out[o] = true
 				}
 			}
 		}
+		if n == 0 {
+			out["?"] = true
+		}
+		return out
 	}
-	n := 0
-	for _, c := range count {
-		n += c
+	var sites []site
+	for _, fn := range r.P.Funcs {
+		top := topFn(fn)
+		for _, ins := range allInstrs(fn) {
+			g, ok := ins.(*ssa.Go)
+			if !ok {
+				continue
+			}
+			s := site{g: g, fn: fn, owner: fnName(top)}
+			if _, listed := goSites[s.owner]; !listed {
+				os := ownersOf(top, 0, map[*ssa.Function]bool{})
+				if len(os) == 1 && !os["?"] {
+					for o := range os {
+						s.owner, s.via = o, fnName(top)
+					}
+				}
+			}
+			sites = append(sites, s)
+		}
 	}
-	r.AtLeast("R4a.go", "go statements", n, 7)
+	// statements of the listed function itself first, then those of its helpers
+	sort.SliceStable(sites, func(i, j int) bool { return sites[i].via == "" && sites[j].via != "" })
+	count := map[string]int{}
+	for _, s := range sites {
+		name := s.owner
+		count[name]++
+		e, listed := goSites[name]
+		what := fmt.Sprintf("go statement %d of %s", count[name], name)
+		if listed && count[name] <= e.N {
+			reason := e.Reason
+			if s.via != "" {
+				reason = "in " + s.via + ", a helper called only on behalf of " + name + " — " + reason
+			}
+			r.Tabled("R4a.go", fnName(s.fn), what, r.P.pos(s.g.Pos()), "goSites", reason)
+		} else {
+			r.Bad("R4a.go", fnName(s.fn), what, r.P.pos(s.g.Pos()),
+				"new goroutine spawn site: concurrency outside AsyncMapReduce and the subscription goroutines is not covered by the ordering/independence arguments (R1, R8, R9b)")
+		}
+	}
+	// anti-vacuity, by role rather than by a total: every listed function still starts at least
+	// one goroutine (how many it needs is its own business — a fan-out helper rewritten without a
+	// reducer goroutine has one statement less and nothing to review)
+	var names []string
+	for name := range goSites {
+		names = append(names, name)
+	}
+	sort.Strings(names)
+	for _, name := range names {
+		r.AtLeast("R4a.go", "go statements of "+name, count[name], 1)
+	}
 }
 
 // ---- R4b ------------------------------------------------------------------------------
@@ -558,13 +629,84 @@ func ruleOperationSelection(r *Run) {
 					guarded = true
 				}
 			}
-			_ = ia
+			// and the document must be known to define no second operation: the load lies on
+			// the side of a test of len(<the indexed list>) on which the length is at most one
+			// (`== 1`, `case 1:`, the else of `> 1`, …). `len(...) > 0` proves the index only.
+			single := false
+			for _, i2 := range allInstrs(fn) {
+				iff, ok := i2.(*ssa.If)
+				if !ok {
+					continue
+				}
+				if side := atMostOneSide(iff, ia.X); side != nil && len(side.Preds) == 1 && (side == ld.Block() || side.Dominates(ld.Block())) {
+					single = true
+				}
+			}
+			r.Check(single, rule, fnName(fn), "positional operation is the only one", r.P.pos(ld.Pos()),
+				"the operation is taken by position only where the document is known to hold a single operation",
+				"an operation is picked from the document by position on a path where the document may define several operations (no test that len(Operations) is 1 guards it): a request that does not say which of them it means is executed — the first one, possibly a mutation — instead of being rejected as ambiguous")
 			r.Check(guarded, rule, fnName(fn), "operation taken by position", r.P.pos(ld.Pos()),
 				"the document's only operation is used only where the request names no operation",
 				"an operation is picked from the document by position on a path where the request carries an operationName: a request naming an operation the document does not define is then executed instead of being answered with a validation error by the gateway alone")
 		}
 	}
 	r.AtLeast(rule, "positional operation selections", n, 1)
+}
+
+// atMostOneSide: iff tests len(list) against a constant; the successor on which the length is
+// known to be at most one, or nil.
+func atMostOneSide(iff *ssa.If, list ssa.Value) *ssa.BasicBlock {
+	bo, ok := iff.Cond.(*ssa.BinOp)
+	if !ok {
+		return nil
+	}
+	isLen := func(v ssa.Value) bool {
+		c, ok := v.(*ssa.Call)
+		if !ok {
+			return false
+		}
+		b, ok := c.Call.Value.(*ssa.Builtin)
+		return ok && b.Name() == "len" && len(c.Call.Args) == 1 && sameValue(unwrap(c.Call.Args[0]), unwrap(list))
+	}
+	constOf := func(v ssa.Value) (int64, bool) {
+		k, ok := v.(*ssa.Const)
+		if !ok || k.Value == nil || k.Value.Kind() != constant.Int {
+			return 0, false
+		}
+		return k.Int64(), true
+	}
+	op := bo.Op
+	var k int64
+	if kk, ok := constOf(bo.Y); ok && isLen(bo.X) {
+		k = kk
+	} else if kk, ok := constOf(bo.X); ok && isLen(bo.Y) {
+		k = kk
+		// mirror `k op len` into `len op' k`
+		switch op {
+		case token.LSS:
+			op = token.GTR
+		case token.GTR:
+			op = token.LSS
+		case token.LEQ:
+			op = token.GEQ
+		case token.GEQ:
+			op = token.LEQ
+		}
+	} else {
+		return nil
+	}
+	t, f := iff.Block().Succs[0], iff.Block().Succs[1]
+	switch {
+	case op == token.EQL && (k == 1 || k == 0):
+		return t
+	case op == token.NEQ && (k == 1 || k == 0):
+		return f
+	case op == token.LEQ && k <= 1, op == token.LSS && k <= 2:
+		return t
+	case op == token.GTR && k <= 1, op == token.GEQ && k <= 2:
+		return f
+	}
+	return nil
 }
 
 func ruleGate(r *Run) {
@@ -585,6 +727,35 @@ func ruleGate(r *Run) {
 		}
 		return false
 	}
+	// an edge that says nothing about this caller: a call of a parameter ("param"), or a
+	// function value handed on to a callee that is itself only a parameter of the caller
+	// (`go mapOne(v, mapFunc, …)` inside a higher-order helper) — which function that is depends
+	// on the caller's caller, whose own call site carries the context-sensitive edge
+	insensitive := func(e *Edge) bool {
+		if e.Kind == "param" {
+			return true
+		}
+		if e.Kind != "hoarg" {
+			return false
+		}
+		viaParam := false
+		for _, a := range e.Site.Common().Args {
+			if _, isSig := a.Type().Underlying().(*types.Signature); !isSig {
+				continue
+			}
+			if _, isParam := a.(*ssa.Parameter); isParam {
+				viaParam = true
+				continue
+			}
+			fs, _ := r.P.CG.funcValues(a, map[ssa.Value]bool{})
+			for _, f := range fs {
+				if origin(f) == e.Callee {
+					return false
+				}
+			}
+		}
+		return viaParam
+	}
 	D := map[*ssa.Function]bool{}
 	for fn := range req {
 		for _, e := range r.P.CG.Ext[fn] {
@@ -600,7 +771,7 @@ func ruleGate(r *Run) {
 				continue
 			}
 			for _, e := range r.P.CG.Out[fn] {
-				if e.Kind != "param" && D[e.Callee] {
+				if !insensitive(e) && D[e.Callee] {
 					D[fn] = true
 					changed = true
 					break
@@ -634,7 +805,7 @@ func ruleGate(r *Run) {
 	for _, fn := range fns {
 		seen := map[ssa.CallInstruction]bool{}
 		for _, e := range r.P.CG.Out[fn] {
-			if e.Kind == "param" || !D[e.Callee] {
+			if insensitive(e) || !D[e.Callee] {
 				continue
 			}
 			sites = append(sites, siteRec{fn, e.Site, "reaches-sink via " + fnName(e.Callee), e.Callee})
